@@ -896,7 +896,8 @@ int dump_file(const char *path, dump_t *d, uint64_t seed) {
         const dtype_t *t = dtype_by_code(defs[i].data_type);
         uint64_t hs = FNV_INIT, hst = FNV_INIT;
         if (len > 0 && t) {
-            /* samples: random partition */
+            /* samples: random partition, a function of (seed, signal) only so that two files are read the same way */
+            rng_seed(&r, vmix(seed, (uint64_t) id));
             int64_t pos = 0;
             int64_t chunkmax = defs[i].samples_per_data * 2 + 13;
             while (pos < len) {
@@ -943,6 +944,9 @@ int dump_file(const char *path, dump_t *d, uint64_t seed) {
     return 0;
 }
 
+static const uint8_t *g_cmp_skip_fsr;   /* per-signal: do not compare length/samples/statistics */
+void dump_compare_skip_fsr(const uint8_t *mask) { g_cmp_skip_fsr = mask; }
+
 int dump_compare(const dump_t *a, const dump_t *b, const char *prop, const char *kp, const char *what) {
     char key[200];
     int bad = 0;
@@ -955,11 +959,12 @@ int dump_compare(const dump_t *a, const dump_t *b, const char *prop, const char 
     int reported[5] = {0, 0, 0, 0, 0};
     for (int i = 0; i < 256; ++i) {
         if (a->present[i] != b->present[i]) continue;
+        if (a->h_anno[i] != b->h_anno[i] && !reported[3]++) { snprintf(key, sizeof(key), "%s|annotations", kp); v_violation(prop, key, NULL, "%s: signal %d annotations differ", what, i); bad++; }
+        if (a->h_utc[i] != b->h_utc[i] && !reported[4]++) { snprintf(key, sizeof(key), "%s|utc", kp); v_violation(prop, key, NULL, "%s: signal %d UTC entries differ", what, i); bad++; }
+        if (g_cmp_skip_fsr && g_cmp_skip_fsr[i]) continue;
         if (a->h_len[i] != b->h_len[i] && !reported[0]++) { snprintf(key, sizeof(key), "%s|length", kp); v_violation(prop, key, NULL, "%s: signal %d length %lld vs %lld", what, i, (long long) a->length[i], (long long) b->length[i]); bad++; }
         if (a->h_samples[i] != b->h_samples[i] && a->h_len[i] == b->h_len[i] && !reported[1]++) { snprintf(key, sizeof(key), "%s|samples", kp); v_violation(prop, key, NULL, "%s: signal %d samples differ", what, i); bad++; }
         if (a->h_stats[i] != b->h_stats[i] && a->h_len[i] == b->h_len[i] && a->h_samples[i] == b->h_samples[i] && !reported[2]++) { snprintf(key, sizeof(key), "%s|statistics", kp); v_violation(prop, key, NULL, "%s: signal %d statistics differ", what, i); bad++; }
-        if (a->h_anno[i] != b->h_anno[i] && !reported[3]++) { snprintf(key, sizeof(key), "%s|annotations", kp); v_violation(prop, key, NULL, "%s: signal %d annotations differ", what, i); bad++; }
-        if (a->h_utc[i] != b->h_utc[i] && !reported[4]++) { snprintf(key, sizeof(key), "%s|utc", kp); v_violation(prop, key, NULL, "%s: signal %d UTC entries differ", what, i); bad++; }
     }
     return bad;
 }
@@ -1029,14 +1034,14 @@ int decode_and_compare(const char *path, const model_t *m, const char *prop, con
         else for (size_t i = 0; i < al->n; ++i) {
             const jd_chunk_t *c = &d.ch[al->idx[i]];
             const op_t *op = &m->p->ops[s->anno[i]];
-            if (c->plen < 32) continue;
+            if (c->plen < 28) continue;
             const uint8_t *p = c->payload;
             int64_t ts; memcpy(&ts, p, 8);
-            uint32_t dsz; memcpy(&dsz, p + 28, 4);
-            float y; memcpy(&y, p + 24, 4);
+            uint32_t dsz; memcpy(&dsz, p + 24, 4);
+            float y; memcpy(&y, p + 20, 4);
             uint8_t *b = gen_payload(op->stype, op->dsize, op->dseed);
-            int same = ts == op->ts && p[20] == op->atype && p[21] == op->stype && p[22] == op->group && !memcmp(&y, &op->y, 4) && dsz == op->dsize &&
-                       c->plen == 32 + (uint64_t) dsz && !memcmp(p + 32, b, dsz);
+            int same = ts == op->ts && p[16] == op->atype && p[17] == op->stype && p[18] == op->group && !memcmp(&y, &op->y, 4) && dsz == op->dsize &&
+                       (c->plen == 28 + (uint64_t) dsz || (op->stype != JLS_STORAGE_TYPE_BINARY && c->plen == 29 + (uint64_t) dsz)) && !memcmp(p + 28, b, dsz);
             free(b);
             if (!same) { snprintf(key, sizeof(key), "content|anno|%s", file_kind); v_violation(prop, key, wj, "signal %d annotation %zu on disk differs from what was written", id, i); bad++; break; }
         }
